@@ -360,9 +360,15 @@ Proof.
     { rewrite /LN_g ln_mult //; last by apply exp_pos. rewrite ln_exp. field. lra. }
     have Eb : LN_g s m (m * exp (- s^2 / 2 + s * t)) = t.
     { rewrite /LN_g ln_mult //; last by apply exp_pos. rewrite ln_exp. field. lra. }
-    rewrite -{1}Ea -{2}Eb. apply LN_interval_mass => //.
-    + apply Rmult_lt_0_compat => //. apply exp_pos.
-    + apply Rmult_lt_compat_l => //. apply exp_increasing. nra.
+    replace (RInt phi (- t) t)
+      with (RInt phi (LN_g s m (m * exp (- s^2 / 2 - s * t))) (LN_g s m (m * exp (- s^2 / 2 + s * t))))
+      by (rewrite Ea Eb; reflexivity).
+    apply LN_interval_mass.
+    + exact Hs.
+    + exact Hm.
+    + apply Rmult_lt_0_compat; [exact Hm | apply exp_pos].
+    + apply Rmult_lt_compat_l; [exact Hm |]. apply exp_increasing.
+      have Hst : 0 < s * t by apply Rmult_lt_0_compat. lra.
   - apply phi_total_mass.
 Qed.
 
@@ -392,8 +398,8 @@ Proof.
         (combine3 (fun q => LN_err s (fst (fst q)) (snd (fst q)) / fst (fst q) * snd q)) /=.
       rewrite (Rsum_map_ext (fun o => LN_err s (out o x) (yv o) / out o x * sens o / s^2)
                  (fun o => (LN_err s (out o x) (yv o) / out o x * sens o) * / s^2 + 0));
-        last by move=> a _; field; rsolve.
-      rewrite Rsum_map_affine. field; rsolve. }
+        last by move=> a _; rewrite /Rdiv; ring.
+      rewrite Rsum_map_affine. field; lra. }
     apply (is_derive_Rsum os (fun o t => LN_pw s (out o t) (yv o))).
     move=> o Ho. case: (H o Ho) => H1 H2. by apply LN_pw_dpsi.
 Qed.
@@ -440,9 +446,9 @@ Theorem CMG_guard_neginf sb sr ms ys cols : sb <= 0 \/ sr <= 0 ->
   CMG_ll sb sr ms ys = NegInf /\ fst (CMG_S1 sb sr ms ys cols) = NegInf /\
   CMG_pointwise sb sr ms ys = map (fun _ => NegInf) ms.
 Proof.
-  move=> H. have -> : CMG_guard sb sr = true.
+  move=> H. have E : CMG_guard sb sr = true.
   { rewrite /CMG_guard. case: Rle_dec => // H1. case: Rle_dec => // H2. lra. }
-  by rewrite /CMG_ll /CMG_S1 /CMG_pointwise => ->.
+  by rewrite /CMG_ll /CMG_S1 /CMG_pointwise E.
 Qed.
 
 Lemma any_nonpos_true ms : (exists m, In m ms /\ m <= 0) -> any_nonpos ms = true.
@@ -456,7 +462,7 @@ Theorem LN_guard_neginf s ms ys cols : s <= 0 \/ (exists m, In m ms /\ m <= 0) -
   LN_pointwise s ms ys = map (fun _ => NegInf) ms.
 Proof.
   move=> H. have E : LN_guard s ms = true.
-  { rewrite /LN_guard. case: Rle_dec => // H1. apply any_nonpos_true. case: H => //. lra. }
+  { rewrite /LN_guard. case: Rle_dec => // H1. apply any_nonpos_true. case: H => // H2; lra. }
   by rewrite /LN_ll /LN_S1 /LN_pointwise E.
 Qed.
 
